@@ -13,4 +13,4 @@ Extraction "model.ml" stepM vt_new feed_str vt_feed vt_flush vt_dump vt_text vt_
   tabs_are_default holds_C19 holds_C03_sgr spec_emit spec_feed spec_run parser_eqb holds_C20 claims_inert known_C20
   holds_C09 holds_C10 holds_C11 holds_C12 holds_C12_lines known_C12 kf1_C11 kf2_C11 kf3_C11 holds_C14
   tview vt_eqb visible_eqb logical_t curs
-  kf1_C04 holds_C04_wrapmark wrapmark_lost holds_C16_return_text holds_C16_return_list kf1_C11_narrow kf3b_C11 kf1_C07 holds_C07_wrapmark wrapmark_kept kf1_C17.
+  kf1_C04 holds_C04_wrapmark wrapmark_lost holds_C16_return_text holds_C16_return_list holds_C16_return_list_any kf1_C11_narrow kf3b_C11 kf1_C07 holds_C07_wrapmark wrapmark_kept kf1_C17.
